@@ -21,11 +21,12 @@ def consts(path):
 
 props = [json.loads(l) for l in open(os.path.join(ROOT, 'properties.jsonl'))]
 checks, na = [], []
+CLAIMED = set(open(os.path.join(ROOT, 'claimed.txt')).read().split())
 for p in props:
     pid = p['id']
     path = os.path.join(ROOT, 'vf', 'checks', f'{pid.lower()}.py')
     meta = consts(path) if os.path.exists(path) else {}
-    if not meta or meta.get('CLAIMED') is False:
+    if not meta or pid not in CLAIMED:
         na.append({'property_id': pid, 'reason': meta.get('NA_REASON', 'check not built yet (work in progress); design in DESIGN.md section 3')})
         continue
     checks.append(
